@@ -128,6 +128,21 @@ theorem C05_strategy (inp : Input) (rdPkg wrPkg : Pkg) (a b : Ty)
     pairStrat inp.conv (indexed inp.fns) rdPkg wrPkg a b = specStrategy inp rdPkg wrPkg a b :=
   pairStrat_eq_spec inp rdPkg wrPkg a b h1 h2
 
+/-- round trip, statement level: with unique name matching, a pair of IDENTICAL type that ToX copies
+    by assignment is copied back by FromX by assignment between the same two fields — so on these
+    leaves FromX (ToX v) reproduces v (both methods store exactly the value they read; ToX writes each
+    destination field once, C05_write_once). A mapper method T→T would pre-empt the assignment in
+    both directions alike (`misStrat_same`). -/
+theorem C05_roundtrip (inp : Input) (hs : inp.srcNew = false) (hd : inp.destNew = false)
+    (hu : uniquePairs inp = true) (c : Claim) (hc : c ∈ (plan inp).toStmts) (ha : c.strat = .assign) :
+    c.rd.ty = c.wr.ty ∧ (⟨c.wr, c.rd, .assign⟩ : Claim) ∈ (plan inp).fromStmts := by
+  obtain ⟨h1, h2, h3, _, h5⟩ := ((C05_pairs inp hs hd hu c).1).mp hc
+  rw [ha] at h5
+  have hsym := pairStrat_assign_symm _ _ _ _ h5
+  refine ⟨hsym.1, ((C05_pairs inp hs hd hu ⟨c.wr, c.rd, .assign⟩).2).mpr ⟨h1, h2, h3, ?_, hsym.2⟩⟩
+  have : (plan inp).srcFields = sideFields inp.src false := by simp [plan, hs]
+  exact (sideFields_plain_flags inp.src c.rd (this ▸ h1)).1
+
 /-- -way only selects which methods are emitted; the plan itself does not depend on it -/
 theorem C05_way (inp : Input) (w : Way) :
     plan { inp with way := w } = plan inp ∧
